@@ -5,6 +5,7 @@ import PgsVerif.Model.Params
 import PgsVerif.Model.Comment
 import PgsVerif.Model.Context
 import PgsVerif.Model.Persist
+import PgsVerif.Model.Gen
 /-
   JSON glue: one `Engine` per correspondence.  Only decoding/encoding lives here; every function
   called is the very definition the theorems in `PgsVerif/Props` are about.
@@ -178,7 +179,60 @@ def engineC12 : Engine :=
   mkEngine (I := InJ) (O := Obs) (fun i => model i.toIn) (fun i => domC12 i.toIn) (fun i o => judgeC12 i.toIn o)
 end Persist
 
+/-! ### C13 generator workflow -/
+namespace C13
+structure ModJ where
+  name : Bytes
+  arts : List Persist.ArtJ
+deriving FromJson, ToJson
+structure In where
+  files : List (Bytes × Bytes)
+  targets : List Bytes
+  param : Bytes
+  mutators : List (Bytes × Bytes)
+  mods : List ModJ
+  procs : List Persist.Proc
+  features : Option Nat
+  ops : List String
+deriving FromJson, ToJson
+structure EvJ where
+  t : String
+  i : Nat
+  name : Bytes
+  params : Bytes
+  out : Bytes
+  targets : List Bytes
+  pkgs : List Bytes
+  files : List Persist.RF
+  error : Option Bytes
+  features : Option Nat
+deriving FromJson, ToJson, BEq
+def EvJ.ofEv : Ev → EvJ
+  | .read => ⟨"read", 0, [], [], [], [], [], [], none, none⟩
+  | .init i n p o => ⟨"init", i, n, p, o, [], [], [], none, none⟩
+  | .exec i t p => ⟨"exec", i, [], [], [], t, p, [], none, none⟩
+  | .write f e ft => ⟨"write", 0, [], [], [], [], [], f, e, ft⟩
+  | .astRet => ⟨"ast", 0, [], [], [], [], [], [], none, none⟩
+  | .died => ⟨"died", 0, [], [], [], [], [], [], none, none⟩
+def EvJ.toEv (e : EvJ) : Ev :=
+  match e.t with
+  | "read" => .read
+  | "init" => .init e.i e.name e.params e.out
+  | "exec" => .exec e.i e.targets e.pkgs
+  | "write" => .write e.files e.error e.features
+  | "ast" => .astRet
+  | _ => .died
+def In.cfg (i : In) : Cfg :=
+  ⟨i.files, i.targets, i.param, i.mutators, i.mods.map (fun m => ⟨m.name, m.arts.map Persist.ArtJ.toArt⟩), i.procs, i.features⟩
+def In.opsL (i : In) : List Op := i.ops.map fun s => if s == "ast" then .ast else .render
+def engine : Engine :=
+  mkEngine (I := In) (O := List EvJ)
+    (fun i => (trace i.cfg St.start i.opsL).map EvJ.ofEv)
+    (fun i => dom i.cfg)
+    (fun i o => judge i.cfg i.opsL (o.map EvJ.toEv))
+end C13
+
 def engines : List (String × Engine) :=
-  [ ("c11", C11.engine), ("fp", FP.engine), ("c15", C15.engine), ("c19", C19.engine), ("c20", C20.engine), ("c18", C18.engine), ("c10", Persist.engineC10), ("c12", Persist.engineC12), ("c11p", Persist.engineC10) ]
+  [ ("c11", C11.engine), ("fp", FP.engine), ("c15", C15.engine), ("c19", C19.engine), ("c20", C20.engine), ("c18", C18.engine), ("c10", Persist.engineC10), ("c12", Persist.engineC12), ("c11p", Persist.engineC10), ("c13", C13.engine) ]
 
 end Pgs
